@@ -102,6 +102,8 @@ class PhyMetadata(Metadata):
     syncword : Syncword = None
 
     def convert_to_header(self):
+        # Synchronization word may be unknown (e.g. transmitted packets)
+        syncword = self.syncword if self.syncword is not None else b""
         return Phy_Packet_Hdr(
             frequency=self.frequency,
             rssi=self.rssi,
@@ -109,8 +111,8 @@ class PhyMetadata(Metadata):
             deviation=self.deviation,
             datarate=self.datarate,
             modulation=self.modulation,
-            syncword=self.syncword,
-            syncword_length=len(self.syncword)
+            syncword=syncword,
+            syncword_length=len(syncword)
         ), self.timestamp
 
 
